@@ -34,6 +34,7 @@ type PropSpec struct {
 	ExcludeObligations []string            `json:"exclude_obligations"` // obligations of the listed functions that belong to another property
 	OnlyObligations    map[string][]string `json:"only_obligations"`    // function-name substring -> the only obligations (substrings) of it this property claims
 	Lemmas             []string            `json:"lemmas"`
+	Implements         []string            `json:"implements"`         // interface contracts ("pkg::Iface.Method") whose implementations this property verifies against them
 	FsWriterPkgs       []string            `json:"fs_writer_packages"` // packages (relative to internal/) whose fs-writers-only clause this property claims
 	Trusted            []string            `json:"trusted_base"`
 	Uncovered          []string            `json:"uncovered"`
@@ -243,7 +244,8 @@ func fnRef(fn *ssa.Function) string {
 
 type fnRun struct {
 	fn          *ssa.Function
-	swept       bool // reached only via sweep
+	swept       bool   // reached only via sweep
+	impl        string // non-empty: the run checks the method against this interface contract
 	obligs      []*Oblig
 	errs        []string
 	paths       int
@@ -265,6 +267,58 @@ func runFunction(P *Program, fn *ssa.Function) *fnRun {
 			return r2
 		}
 	}
+	return r
+}
+
+// runFunctionAgainstIface verifies a method against the contract of the
+// interface method it implements: the interface's postconditions and frame are
+// added to (the frame: put in place of) the method's own contract; arg0, arg1,
+// … in the interface's clauses are the method's receiver and parameters.
+func runFunctionAgainstIface(P *Program, fn *ssa.Function, ic *Contract, key string) *fnRun {
+	start := time.Now()
+	x := newExec(P, fn)
+	d := &Contract{Pkg: ic.Pkg, Key: funcKey(fn), Loops: map[int]*LoopSpec{}}
+	if x.c != nil {
+		cp := *x.c
+		d = &cp
+		d.Ensures = nil
+		d.OnSends, d.AtCalls, d.CallsOnly, d.CallersOnly, d.NeverCalls = nil, nil, nil, nil, nil
+	}
+	for _, e := range ic.Ensures {
+		ce := *e
+		ce.Label = "implements:" + key + "/" + e.Label
+		d.Ensures = append(d.Ensures, &ce)
+	}
+	if ic.HasAssigns {
+		d.HasAssigns = true
+		d.Assigns = ic.Assigns
+	}
+	x.c = d
+	x.argLets = true
+	r := &fnRun{fn: fn, hasContract: true, impl: key}
+	func() {
+		defer func() {
+			if e := recover(); e != nil {
+				x.errorf("engine panic in %s (against %s): %v", fnDisplay(fn), key, e)
+			}
+		}()
+		x.Run()
+	}()
+	r.obligs = x.obligs
+	for _, e := range x.errs {
+		// clauses of the own contract that were dropped for this run cannot be "unmatched"
+		if strings.Contains(e, "never applied") {
+			continue
+		}
+		r.errs = append(r.errs, "against "+key+": "+e)
+	}
+	r.paths = x.nPaths + 1
+	r.rets = x.retCount
+	r.ms = time.Since(start).Milliseconds()
+	r.unmod = x.E.unmodelled
+	r.assumed = x.E.assumptionsUsed
+	r.trusted = x.trustedUsed
+	r.calls = x.callsSeen
 	return r
 }
 
@@ -738,6 +792,50 @@ func checkProperty(id, tier string) int {
 	}
 	wg.Wait()
 
+	// interface contracts this property claims: every repository method that
+	// implements the interface method is verified against the interface's
+	// postconditions and frame (in addition to its own contract, whose loop
+	// invariants and preconditions it keeps)
+	for _, ref := range prop.Implements {
+		parts := strings.SplitN(ref, "::", 2)
+		if len(parts) != 2 || !strings.Contains(parts[1], ".") {
+			fmt.Fprintln(os.Stderr, "error: bad implements entry", ref)
+			return 2
+		}
+		pkgPath := modPath + "/internal/" + parts[0]
+		if parts[0] == "internal" {
+			pkgPath = modPath + "/internal"
+		}
+		ic := P.ifaceContract(pkgPath, parts[1])
+		dot := strings.Index(parts[1], ".")
+		ifaceName, method := parts[1][:dot], parts[1][dot+1:]
+		var it *types.Interface
+		if sp := P.SSA[pkgPath]; sp != nil {
+			if obj := sp.Pkg.Scope().Lookup(ifaceName); obj != nil {
+				it, _ = obj.Type().Underlying().(*types.Interface)
+			}
+		}
+		if ic == nil || it == nil {
+			fmt.Printf("VIOLATION property=%s replay=%s no-failing-input-found\n", id, writeReplay(id, "missing-interface-contract", map[string]interface{}{"error": "no interface contract " + ref}))
+			return 1
+		}
+		var impls []*ssa.Function
+		for _, cand := range P.Funcs {
+			recv := cand.Signature.Recv()
+			if recv == nil || cand.Name() != method || !isRepoFunc(cand) || cand.Synthetic != "" || cand.Blocks == nil {
+				continue
+			}
+			if types.Implements(recv.Type(), it) || types.Implements(types.NewPointer(recv.Type()), it) {
+				impls = append(impls, cand)
+			}
+		}
+		sort.Slice(impls, func(i, j int) bool { return fnDisplay(impls[i]) < fnDisplay(impls[j]) })
+		for _, fn := range impls {
+			r := runFunctionAgainstIface(P, fn, ic, parts[1])
+			runs = append(runs, r)
+		}
+	}
+
 	// group obligations
 	groups := map[string]*group{}
 	var order []string
@@ -776,6 +874,27 @@ func checkProperty(id, tier string) int {
 		kinds := prop.Kinds
 		if r.swept && len(prop.SweepKinds) > 0 {
 			kinds = prop.SweepKinds
+		}
+		if r.impl != "" {
+			for _, o := range r.obligs {
+				isPost := o.Kind == "post" && strings.Contains(o.Name, "#post:implements:")
+				if !isPost && o.Kind != "frame" {
+					continue
+				}
+				if isPost {
+					o.Name = strings.Replace(o.Name, "#post:implements:", "#implements:", 1)
+				} else {
+					o.Name = strings.Replace(o.Name, "#frame:", "#implements:"+r.impl+"/frame:", 1)
+				}
+				g := groups[o.Name]
+				if g == nil {
+					g = &group{name: o.Name, kind: o.Kind}
+					groups[o.Name] = g
+					order = append(order, o.Name)
+				}
+				g.obs = append(g.obs, o)
+			}
+			continue
 		}
 		for _, o := range r.obligs {
 			if !kindClaimed(kinds, o.Kind) {
